@@ -100,6 +100,7 @@ func (ir *ifdReader) ResetReader(r io.Reader) {
 	ir.buffer.clear()
 	ir.reader = r
 	ir.eof = false
+	ir.po = 0
 }
 
 // readError remembers that the underlying reader has reached its end so
